@@ -342,6 +342,37 @@ def case_moving(ctx, rng, N, median):
     ctx.add(desc, [(op, args)], judge, nontrivial=N.nontriv and n > 0)
 
 
+def _with_jumps(rng, ds, shape):
+    """replace a few links by jumps of 2-3 cells along the row / column (never creating a loop)"""
+    n = len(ds)
+    nrow, ncol = shape
+    out = list(ds)
+    for _ in range(rng.randint(1, 3)):
+        cand = [i for i in range(n) if out[i] != n]
+        if not cand:
+            break
+        i = rng.choice(cand)
+        r, c = divmod(i, ncol)
+        k = rng.choice([-3, -2, 2, 3])
+        r1, c1 = (r, c + k) if rng.random() < 0.5 else (r + k, c)
+        if not (0 <= r1 < nrow and 0 <= c1 < ncol):
+            continue
+        j = r1 * ncol + c1
+        if out[j] == n:
+            continue
+        # walking down from j must not come back to i
+        x, steps, ok = j, 0, True
+        while out[x] != x and steps <= n:
+            if x == i:
+                ok = False
+                break
+            x = out[x]
+            steps += 1
+        if ok and x != i and steps <= n:
+            out[i] = j
+    return out
+
+
 def case_stream_distance(ctx, rng, N):
     from affine import Affine
     unit = rng.choice(["cell", "m"]) if N.fam == "dem" else "cell"
@@ -354,10 +385,19 @@ def case_stream_distance(ctx, rng, N):
         thr = rng.randint(2, 6)
         mask = [u >= thr for u in upa]
     flw = N.flw
+    ds_use = N.ds
     if unit == "m":
-        flw = mk_raster(N.ds, N.shape, transform=Affine(3.0, 0.0, 10.0, 0.0, -4.0, 50.0))
+        if rng.random() < 0.35:
+            # links between cells that are NOT neighbours (legal for NEXTXY rasters and vector-derived networks): jumps of
+            # 2-3 cells along a row or a column keep every length an integer on the 3 x 4 grid
+            ds_use = _with_jumps(rng, N.ds, N.shape)
+            if ds_use != N.ds:
+                ctx.count("stream_distance:non-neighbour-links")
+        flw = mk_raster(ds_use, N.shape, transform=Affine(3.0, 0.0, 10.0, 0.0, -4.0, 50.0),
+                        **({"ftype": "nextxy"} if ds_use != N.ds else {}))
     m = None if mask is None else arr(N, mask, bool)
     out = flw.stream_distance(mask=m, unit=unit)
+    seq_use = N.seq if ds_use == N.ds else canon_idx(flw.idxs_seq, N.n)
     impl = exact_ints(out)
     dtype_ok = out.dtype == (np.int32 if unit == "cell" else np.float32)
     name = f"stream_distance({unit})"
@@ -378,8 +418,8 @@ def case_stream_distance(ctx, rng, N):
         if not dtype_ok:
             fs.append({"kind": "model", "what": f"{name}: unexpected dtype {out.dtype}"})
         return fs
-    ctx.add({"op": name, **N.base, "mask": mask, "unit": unit, "cellsize": [3, 4]},
-            [("c14_stream_distance", {"ds": N.ds, "seq": N.seq, "mask": mask, "real": int(unit == "m"),
+    ctx.add({"op": name, **{**N.base, "ds": ds_use}, "mask": mask, "unit": unit, "cellsize": [3, 4]},
+            [("c14_stream_distance", {"ds": ds_use, "seq": seq_use, "mask": mask, "real": int(unit == "m"),
                                       "ncol": N.shape[1], "xres": 3, "yres": -4})],
             judge, nontrivial=N.nontriv)
 
